@@ -1,6 +1,7 @@
 import Flowjaxv.Proofs.Params
 import Flowjaxv.Proofs.Wrappers
 import Flowjaxv.Proofs.TriangularGen
+import Flowjaxv.Proofs.PermGen
 /-!
 # C11 — constrained parameters stay valid for every unconstrained value
 
@@ -414,5 +415,38 @@ theorem gen_tri_ctor_instance :
     TriPrims.NdArr.asMat, Except.bind]
 
 end TriangularGen
+
+section PermGen
+/-! ## Permute REGENERATED (`Gen/PermGen.lean`): the constructor's rejection on the generated `__init__` -/
+open PermPrims Gen.PermGen
+
+/-- `reject_iff_not_permutation` on the generated constructor: it raises (the `eqx.error_if` error) IFF the flattened entries are not a
+permutation of `0 … size−1` — any rank, shape, size; in particular the predicate it hands to `error_if` is the hand model's
+`permuteRejects`. -/
+theorem gen_reject_iff_not_permutation (p : IArr) :
+    (Permute.init p = .error .runtimeError ↔ ¬ p.data.Perm ((List.range p.data.length).map Int.ofNat)) ∧
+    ((ne (sort (ravel p)) (arange (size p))).any id = permuteRejects p.data) := by
+  refine ⟨?_, PermGenPf.errorIf_pred p⟩
+  rw [← reject_iff_not_permutation]
+  have := PermGenPf.gen_init_accepts_iff p
+  cases hr : permuteRejects p.data
+  · rw [hr] at this
+    obtain ⟨s, hs⟩ := this.mpr rfl
+    simp [hs]
+  · rw [hr] at this
+    simp only [reduceCtorEq, iff_false, not_exists] at this
+    cases hi : Permute.init p with
+    | ok s => exact absurd hi (this s)
+    | error e => cases e; simp
+
+/-- non-vacuity: out-of-range, negative and repeated entries are rejected, a valid 2 × 2 array is accepted -/
+theorem gen_permute_reject_instance :
+    Permute.init ⟨[3], [0, 1, 3]⟩ = .error .runtimeError ∧ Permute.init ⟨[3], [0, -1, 2]⟩ = .error .runtimeError ∧
+    Permute.init ⟨[2, 2], [0, 1, 1, 2]⟩ = .error .runtimeError ∧ ¬ Permute.init ⟨[2, 2], [3, 1, 0, 2]⟩ = .error .runtimeError :=
+  ⟨(gen_reject_iff_not_permutation _).1.mpr (by decide), (gen_reject_iff_not_permutation _).1.mpr (by decide),
+   (gen_reject_iff_not_permutation _).1.mpr (by decide),
+   fun h => absurd (show List.Perm [3, 1, 0, 2] ((List.range 4).map Int.ofNat) by decide) ((gen_reject_iff_not_permutation _).1.mp h)⟩
+
+end PermGen
 
 end C11
